@@ -839,3 +839,300 @@ theorem convert_valid (null : α) (S T V : Nat) (hS : 0 < S) (hT : 2 ≤ T)
   simpa using this
 
 end Total
+
+/-! ### `_simplify` and `get_subset` cannot fail either; C05 without premises -/
+
+namespace Total
+variable {α : Type} [DecidableEq α]
+
+/-- **`_simplify` never fails on a valid key**, whatever its class, when a present time / vector axis
+    has at least two entries -/
+theorem simplifyK_ok (null : α) (sh : Shp) (wf : WF sh) (hsl : sh.hasSlice = true)
+    (ht : sh.hasTime = true → 2 ≤ sh.T) (hv : sh.hasVector = true → 2 ≤ sh.V)
+    (c : Cls) (vals : List α) (hl : vals.length = mult sh c) :
+    ∃ o, simplifyK null sh c vals = .ok o := by
+  obtain ⟨hS, hT, hV⟩ := wf
+  cases c with
+  | gconst => unfold simplifyK; simp
+  | gslices =>
+    exact simplify_gslices_ok null sh ⟨hS, hT, hV⟩ hsl ht hv vals (by simpa [mult, hsl] using hl)
+  | tslices =>
+    have hconst : ∃ res, constLoop sh tslices vals (constTests tslices) = .ok res := by
+      apply constLoop_ok_of
+      intro d hd _
+      have : d = gconst := by simpa [constTests] using hd
+      subst this; exact Or.inl rfl
+    obtain ⟨res, hres⟩ := hconst
+    unfold simplifyK
+    simp only [show ¬ (tslices = gconst) by decide, if_false, hres]
+    cases res with
+    | some p => exact ⟨_, rfl⟩
+    | none => simp [repeatTests, repeatLoop]
+  | vsamples =>
+    have hconst : ∃ res, constLoop sh vsamples vals (constTests vsamples) = .ok res := by
+      apply constLoop_ok_of
+      intro d hd _
+      have : d = gconst := by simpa [constTests] using hd
+      subst this; exact Or.inl rfl
+    obtain ⟨res, hres⟩ := hconst
+    unfold simplifyK
+    simp only [show ¬ (vsamples = gconst) by decide, if_false, hres]
+    cases res with
+    | some p => exact ⟨_, rfl⟩
+    | none => simp [repeatTests, repeatLoop]
+  | tsamples =>
+    have hlen : vals.length = sh.T * sh.V := by simpa [mult] using hl
+    have hconst : ∃ res, constLoop sh tsamples vals (constTests tsamples) = .ok res := by
+      apply constLoop_ok_of
+      intro d hd _
+      have hd' : d = gconst ∨ d = vsamples := by simpa [constTests] using hd
+      rcases hd' with rfl | rfl
+      · exact Or.inl rfl
+      · have hp : constPeriod sh tsamples vsamples = some sh.T := rfl
+        rw [hp]
+        by_cases h1 : sh.T = 1
+        · exact Or.inr (Or.inl (by rw [h1]))
+        · exact Or.inr (Or.inr ⟨_, rfl, by omega, by rw [hlen]; exact Nat.mul_mod_right _ _⟩)
+    obtain ⟨res, hres⟩ := hconst
+    unfold simplifyK
+    simp only [show ¬ (tsamples = gconst) by decide, if_false, hres]
+    cases res with
+    | some p => exact ⟨_, rfl⟩
+    | none => simp [repeatTests, repeatLoop]
+  | vslices =>
+    have hlen : vals.length = sh.S * sh.T := by simpa [mult, hsl] using hl
+    have hpt : constPeriod sh vslices tsamples = some sh.S := rfl
+    have hconst : ∃ res, constLoop sh vslices vals (constTests vslices) = .ok res := by
+      apply constLoop_ok_of
+      intro d hd _
+      have hd' : d = gconst ∨ d = tsamples := by simpa [constTests] using hd
+      rcases hd' with rfl | rfl
+      · exact Or.inl rfl
+      · rw [hpt]
+        by_cases h1 : sh.S = 1
+        · exact Or.inr (Or.inl (by rw [h1]))
+        · exact Or.inr (Or.inr ⟨_, rfl, by omega, by rw [hlen]; exact Nat.mul_mod_right _ _⟩)
+    obtain ⟨res, hres⟩ := hconst
+    unfold simplifyK
+    simp only [show ¬ (vslices = gconst) by decide, if_false, hres]
+    cases res with
+    | some p => exact ⟨_, rfl⟩
+    | none =>
+      simp only
+      have hmiss := constLoop_prefix sh vslices vals (constTests vslices) none hres
+      simp only at hmiss
+      have hrep : ∃ res, repeatLoop sh vals (repeatTests vslices) = .ok res := by
+        apply repeatLoop_ok_of
+        intro d hd hb
+        have hd' : d = tslices := by simpa [repeatTests] using hd
+        subst hd'
+        have hbt : sh.hasTime = true := by simpa [basePresent] using hb
+        have hT2 := ht hbt
+        have hm := hmiss tsamples (by simp [constTests]) (by simpa [basePresent] using hbt)
+        have hS1 : sh.S ≠ 1 := by
+          intro e; apply hm.1; rw [hpt, e]
+        have hmt : mult sh tslices = sh.S := by simp [mult, hsl]
+        rw [hmt, hlen]
+        refine ⟨by omega, ?_, Nat.mul_mod_right _ _⟩
+        have : sh.S * 2 ≤ sh.S * sh.T := Nat.mul_le_mul_left _ hT2
+        omega
+      obtain ⟨r2, hr2⟩ := hrep
+      rw [hr2]
+      cases r2 with
+      | some p => exact ⟨_, rfl⟩
+      | none => exact ⟨_, rfl⟩
+
+theorem applySimplify_total (null : α) (sh : Shp) (wf : WF sh) (hsl : sh.hasSlice = true)
+    (ht : sh.hasTime = true → 2 ≤ sh.T) (hv : sh.hasVector = true → 2 ≤ sh.V)
+    (ks : KeyState α) (hval : ValidK sh ks) : ∃ r, applySimplify null sh ks = .ok r := by
+  cases ks with
+  | none => exact ⟨none, rfl⟩
+  | some pr =>
+    obtain ⟨c, vals⟩ := pr
+    obtain ⟨o, ho⟩ := simplifyK_ok null sh wf hsl ht hv c vals hval.2
+    simp only [applySimplify, ho]
+    cases o <;> exact ⟨_, rfl⟩
+
+end Total
+
+namespace Total
+variable {α : Type} [DecidableEq α]
+
+theorem consistent_ht (sh : Shp) (hc : Consistent sh) : sh.hasTime = true → 2 ≤ sh.T := by
+  intro h
+  have := (hc.htime.mp h).2
+  have := hc.hT
+  omega
+
+/-- **`get_subset` along the slice axis cannot fail** on a valid key -/
+theorem subsetSliceK_ok (null : α) (sh : Shp) (hc : Consistent sh)
+    (hV2 : sh.hasVector = true → 2 ≤ sh.V)
+    (ks : KeyState α) (hv : ValidK sh ks) (idx : Nat) (hidx : idx < sh.S) :
+    ∃ p, subsetSliceK null sh ks idx = .ok p := by
+  cases ks with
+  | none => exact ⟨none, rfl⟩
+  | some pr =>
+    obtain ⟨c, vals⟩ := pr
+    unfold subsetSliceK
+    by_cases hps : perSlice c = true
+    · simp only [hps, if_true]
+      obtain ⟨h1, h2, _⟩ := copySlice_valid sh hc.toWFnd hc.hsl c hps hv.1 vals hv.2 idx hidx
+      apply applySimplify_total null (sliceSubsetShp sh) ⟨by simp [sliceSubsetShp], hc.hT, hc.hV⟩
+        hc.hsl (consistent_ht sh hc) hV2
+      exact ⟨h1, h2⟩
+    · simp [hps]
+
+/-- **`get_subset` along the time axis cannot fail** on a valid key (4-D, or 5-D with ≥ 2 vector
+    components) -/
+theorem subsetTimeK_ok (null : α) (sh : Shp) (hc : Consistent sh) (h45 : sh.nd = 4 ∨ sh.nd = 5)
+    (hV2 : sh.nd = 5 → 2 ≤ sh.V)
+    (ks : KeyState α) (hv : ValidK sh ks) (idx : Nat) (hidx : idx < sh.T) :
+    ∃ p, subsetTimeK null sh ks idx = .ok p := by
+  cases ks with
+  | none => exact ⟨none, rfl⟩
+  | some pr =>
+    obtain ⟨c, vals⟩ := pr
+    unfold subsetTimeK
+    by_cases hcg : c = gconst
+    · simp [hcg]
+    · simp only [hcg, if_false]
+      obtain ⟨hval, _⟩ := copySampleTime_lookup sh hc h45 hV2 c hcg vals hv idx hidx
+      by_cases hsimp : (copySampleK sh (timeSubsetShp sh) true idx c vals).2.2 = true
+      · simp only [hsimp, if_true]
+        have hrs : (timeSubsetShp sh).S = sh.S ∧ (timeSubsetShp sh).T = 1 ∧ (timeSubsetShp sh).V = sh.V ∧
+            (timeSubsetShp sh).hasSlice = sh.hasSlice ∧ (timeSubsetShp sh).hasTime = false ∧
+            ((timeSubsetShp sh).hasVector = true → sh.nd = 5) := by
+          unfold timeSubsetShp
+          by_cases h4 : sh.nd = 4
+          · simp [h4]
+          · simp only [h4, if_false, true_and]
+            intro _
+            rcases h45 with h | h
+            · exact absurd h h4
+            · exact h
+        obtain ⟨r1, r2, r3, r4, r5, r6⟩ := hrs
+        apply applySimplify_total null (timeSubsetShp sh)
+          ⟨by rw [r1]; exact hc.hS, by rw [r2]; decide, by rw [r3]; exact hc.hV⟩
+          (by rw [r4]; exact hc.hsl) (by rw [r5]; intro h; cases h)
+          (by intro h; rw [r3]; exact hV2 (r6 h))
+        exact hval
+      · simp [hsimp]
+
+/-- **`get_subset` along the vector axis cannot fail** on a valid key of a 5-D extension -/
+theorem subsetVecK_ok (null : α) (sh : Shp) (hc : Consistent sh) (h5 : sh.nd = 5)
+    (ks : KeyState α) (hv : ValidK sh ks) (idx : Nat) (hidx : idx < sh.V) :
+    ∃ p, subsetVecK null sh ks idx = .ok p := by
+  cases ks with
+  | none => exact ⟨none, rfl⟩
+  | some pr =>
+    obtain ⟨c, vals⟩ := pr
+    unfold subsetVecK
+    by_cases hcg : c = gconst
+    · simp [hcg]
+    · simp only [hcg, if_false]
+      obtain ⟨hval, _⟩ := copySampleVec_lookup sh hc h5 c hcg vals hv idx hidx
+      by_cases hsimp : (copySampleK sh (vecSubsetShp sh) false idx c vals).2.2 = true
+      · simp only [hsimp, if_true]
+        obtain ⟨rS, rT, rV, rsl, _, _⟩ := vecSubsetShp_facts sh hc h5
+        have rht : (vecSubsetShp sh).hasTime = sh.hasTime := by
+          unfold vecSubsetShp; split <;> rfl
+        have rhv : (vecSubsetShp sh).hasVector = false := by
+          unfold vecSubsetShp; split <;> rfl
+        apply applySimplify_total null (vecSubsetShp sh)
+          ⟨by rw [rS]; exact hc.hS, by rw [rT]; exact hc.hT, by rw [rV]; decide⟩
+          rsl (by rw [rht, rT]; exact consistent_ht sh hc) (by rw [rhv]; intro h; cases h)
+        exact hval
+      · simp [hsimp]
+
+end Total
+
+namespace Total
+variable {α : Type} [DecidableEq α]
+
+/-- **C05 without premises (slice axis):** splitting a canonical key and merging the pieces back
+    both succeed and reproduce the key -/
+theorem split_merge_slice_total (null : α) (sh : Shp) (hc : Consistent sh) (hS2 : 2 ≤ sh.S)
+    (hV2 : sh.hasVector = true → 2 ≤ sh.V)
+    (ks : KeyState α) (hv : ValidK sh ks) (hcan : Canonical null sh ks) :
+    ∃ (pieces : Nat → KeyState α) (r : KeyState α),
+      (∀ i, i < sh.S → subsetSliceK null sh ks i = .ok (pieces i)) ∧
+      mergeSliceK null sh ((List.range sh.S).map pieces) = .ok r ∧ r = ks := by
+  let pieces := fun i => okOr (none : KeyState α) (subsetSliceK null sh ks i)
+  have hp : ∀ i, i < sh.S → subsetSliceK null sh ks i = .ok (pieces i) := fun i hi =>
+    eq_ok_okOr _ _ (subsetSliceK_ok null sh hc hV2 ks hv i hi)
+  have hpv : ∀ i, i < sh.S → ValidK { sh with S := 1 } (pieces i) := fun i hi =>
+    (subsetSlice_spec null sh hc ks hv i hi (pieces i) (hp i hi)).1
+  have hm : ∃ r, mergeSliceK null sh ((List.range sh.S).map pieces) = .ok r := by
+    obtain ⟨a, rest, hl, _⟩ := range_map_cons sh.S (by omega) pieces
+    rw [hl]
+    apply mergeSliceK_ok null sh hc hV2
+    intro b hb
+    rw [← hl] at hb
+    obtain ⟨i, hi, rfl⟩ := List.mem_map.mp hb
+    exact hpv i (List.mem_range.mp hi)
+  obtain ⟨r, hr⟩ := hm
+  exact ⟨pieces, r, hp, hr, split_merge_slice_id null sh hc hS2 ks hv hcan pieces hp r hr⟩
+
+/-- **C05 without premises (time axis of a 4-D extension)** -/
+theorem split_merge_time_total (null : α) (sh : Shp) (hc : Consistent sh) (h4 : sh.nd = 4)
+    (ks : KeyState α) (hv : ValidK sh ks) (hcan : Canonical null sh ks) :
+    ∃ (pieces : Nat → KeyState α) (r : KeyState α),
+      (∀ i, i < sh.T → subsetTimeK null sh ks i = .ok (pieces i)) ∧
+      mergeTimeK null sh (timeSubsetShp sh) ((List.range sh.T).map pieces) = .ok r ∧ r = ks := by
+  let pieces := fun i => okOr (none : KeyState α) (subsetTimeK null sh ks i)
+  have hp : ∀ i, i < sh.T → subsetTimeK null sh ks i = .ok (pieces i) := fun i hi =>
+    eq_ok_okOr _ _ (subsetTimeK_ok null sh hc (Or.inl h4) (by intro h; omega) ks hv i hi)
+  have hpv : ∀ i, i < sh.T → ValidK (timeSubsetShp sh) (pieces i) := fun i hi =>
+    (subsetTime_spec4 null sh hc h4 ks hv i hi (pieces i) (hp i hi)).1
+  have hT2 : 2 ≤ sh.T := by
+    have := hc.trimmed4 h4
+    have := hc.hT
+    omega
+  have hV1 := hc.h4 h4
+  have hvec : sh.hasVector = false := by
+    cases hh : sh.hasVector with
+    | false => rfl
+    | true => have := hc.hvec.mp hh; omega
+  have hrs : timeSubsetShp sh = { sh with nd := 3, T := 1, hasTime := false, hasVector := false } := by
+    simp [timeSubsetShp, h4]
+  have hm : ∃ r, mergeTimeK null sh (timeSubsetShp sh) ((List.range sh.T).map pieces) = .ok r := by
+    obtain ⟨a, rest, hl, hlen⟩ := range_map_cons sh.T (by omega) pieces
+    rw [hl]
+    apply mergeTimeK_ok null sh (timeSubsetShp sh) hc.hS hc.hsl h4 hV1 hvec
+      (by rw [hrs]) (by rw [hrs]) (by rw [hrs]) (by rw [hrs]; exact hV1) (by rw [hrs]; exact hc.hsl)
+      a rest
+    · intro h; rw [h] at hlen; simp at hlen; omega
+    · intro b hb
+      rw [← hl] at hb
+      obtain ⟨i, hi, rfl⟩ := List.mem_map.mp hb
+      exact hpv i (List.mem_range.mp hi)
+  obtain ⟨r, hr⟩ := hm
+  exact ⟨pieces, r, hp, hr, split_merge_time_id null sh hc h4 ks hv hcan pieces hp r hr⟩
+
+/-- **C05 without premises (vector axis of a 5-D extension)** -/
+theorem split_merge_vec_total (null : α) (sh : Shp) (hc : Consistent sh) (h5 : sh.nd = 5)
+    (hV2 : 2 ≤ sh.V)
+    (ks : KeyState α) (hv : ValidK sh ks) (hcan : Canonical null sh ks) :
+    ∃ (pieces : Nat → KeyState α) (r : KeyState α),
+      (∀ i, i < sh.V → subsetVecK null sh ks i = .ok (pieces i)) ∧
+      mergeVecK null sh (vecSubsetShp sh) ((List.range sh.V).map pieces) = .ok r ∧ r = ks := by
+  let pieces := fun i => okOr (none : KeyState α) (subsetVecK null sh ks i)
+  have hp : ∀ i, i < sh.V → subsetVecK null sh ks i = .ok (pieces i) := fun i hi =>
+    eq_ok_okOr _ _ (subsetVecK_ok null sh hc h5 ks hv i hi)
+  have hpv : ∀ i, i < sh.V → ValidK (vecSubsetShp sh) (pieces i) := fun i hi =>
+    (subsetVec_spec null sh hc h5 ks hv i hi (pieces i) (hp i hi)).1
+  obtain ⟨rS, rT, rV, rsl, rnd, _⟩ := vecSubsetShp_facts sh hc h5
+  have hm : ∃ r, mergeVecK null sh (vecSubsetShp sh) ((List.range sh.V).map pieces) = .ok r := by
+    obtain ⟨a, rest, hl, hlen⟩ := range_map_cons sh.V (by omega) pieces
+    rw [hl]
+    apply mergeVecK_ok null sh (vecSubsetShp sh) hc.hS hc.hT hc.hsl h5 (hc.hvec.mpr h5)
+      (fun h => (hc.htime.mp h).2) rsl rS rT rV rnd a rest
+    · intro h; rw [h] at hlen; simp at hlen; omega
+    · intro b hb
+      rw [← hl] at hb
+      obtain ⟨i, hi, rfl⟩ := List.mem_map.mp hb
+      exact hpv i (List.mem_range.mp hi)
+  obtain ⟨r, hr⟩ := hm
+  exact ⟨pieces, r, hp, hr, split_merge_vec_id null sh hc h5 hV2 ks hv hcan pieces hp r hr⟩
+
+end Total
